@@ -431,17 +431,18 @@ def ratio_guards(F, R):
                     while c[0] == 'op' and c[1] == 'not':
                         neg = not neg
                         c = c[2][0]
-                    if c[0] == 'op' and c[1] in ('eq', 'ne') and c[2][1] == lit(0.0):
+                    if c[0] == 'op' and c[1] in ('eq', 'ne', 'le', 'gt') and c[2][1] == lit(0.0):
                         guard_term = c[2][0]
-                        zero_branch = x[2] if ((c[1] == 'eq') != neg) else x[3]
-                        other = x[3] if ((c[1] == 'eq') != neg) else x[2]
+                        zero_is_then = (c[1] in ('eq', 'le')) != neg
+                        zero_branch = x[2] if zero_is_then else x[3]
+                        other = x[3] if zero_is_then else x[2]
                         divs = [y for y in subterms(other) if y[0] == 'op' and y[1] == 'div' and y[2][1] == guard_term]
                         if divs and not any(y[0] == 'op' and y[1] == 'div' and y[2][1] == guard_term for y in subterms(zero_branch)):
                             if n == 'Rsi':
                                 zb = zero_branch[1] if zero_branch[0] == 'some' else zero_branch
                                 ok = zb == lit(100.0)
-                                detail = 'reports 100 exactly when the loss aggregate is 0, divides by it otherwise' if ok else 'zero-loss branch reports %s, not 100' % tstr(zb)[:40]
+                                detail = 'reports 100 exactly when the loss aggregate is (at most) 0, divides by it otherwise' if ok else 'zero-loss branch reports %s, not 100' % tstr(zb)[:40]
                             else:
-                                ok = zero_branch == ('in', cell) or zero_branch == ('some', ('in', cell))
+                                ok = (zero_branch == ('in', cell) or zero_branch == ('some', ('in', cell))) and c[1] in ('eq', 'ne')
                                 detail = 'ratio formed only when cu+cd != 0, previous output held otherwise' if ok else 'flat-window branch is %s, not a hold' % tstr(zero_branch)[:40]
         R.ob('G-ratio', n, ok, detail, v.file)
